@@ -171,6 +171,8 @@ static std::string classify_stderr(const std::string &e) {
 			pos = eol == std::string::npos ? e.size() : eol;
 			if (e.compare(pos, 2, "\n\n") == 0) break;
 		}
+		// an exhausted stack is met in whichever frame of the recursion happens to be on top: the function is no part of the violation class
+		if (kind == "stack-overflow") return "asan:stack-overflow";
 		return "asan:" + kind + ":" + fn;
 	}
 	size_t u = e.find("runtime error: ");
